@@ -22,6 +22,7 @@ import (
 	"sync/atomic"
 
 	"mosn.io/api"
+	v2 "mosn.io/mosn/pkg/config/v2"
 	mlog "mosn.io/mosn/pkg/log"
 	"mosn.io/mosn/pkg/protocol"
 	"mosn.io/mosn/pkg/router"
@@ -447,7 +448,7 @@ func c04Determinism(c *lab.Ctx) {
 	}
 	reps := c.Pick(12, 20)
 	const readers = 16
-	var concurrentLookups, writerOps, updateBack, reAdd int64
+	var concurrentLookups, writerOps, updateBack, reAdd, churnLookups int64
 	replay := c.ReplayCase()
 	for round := 0; round < rounds; round++ {
 		name := fmt.Sprintf("c04-det-%d", round)
@@ -617,6 +618,13 @@ func c04Determinism(c *lab.Ctx) {
 				check("after RemoveAllRoutes+AddRoute("+dom+")", "C04/determinism/re-added-routes-differ-from-fresh-build", rw.GetRouters(), base, cfgA)
 				reAdd++
 			}
+			// (d) lookups concurrent with RemoveAllRoutes/AddRoute on the virtual host they select: the route list a lookup works on
+			// must be one that existed (a prefix of the list being installed), never a mixture of the old and the new list
+			if okAll {
+				n := c04Churn(c, round, name, dom, cfgA, vi, probes, rw, mgr, readerSeeds)
+				churnLookups += n
+				check("after the churn on "+dom, "C04/determinism/churned-routes-differ-from-fresh-build", rw.GetRouters(), base, cfgA)
+			}
 			break
 		}
 		if round == 0 {
@@ -627,6 +635,7 @@ func c04Determinism(c *lab.Ctx) {
 	c.Count("writer-ops-during-lookups", writerOps)
 	c.Count("update-back-rounds", updateBack)
 	c.Count("re-add-rounds", reAdd)
+	c.Count("lookups-concurrent-with-updates-of-their-own-vhost", churnLookups)
 	c.Exhaustive(false)
 	if replay < 0 {
 		c.Require("concurrent lookups", concurrentLookups >= 100000, fmt.Sprintf("%d", concurrentLookups))
@@ -634,4 +643,114 @@ func c04Determinism(c *lab.Ctx) {
 		c.Require("update-back rounds", updateBack >= int64(rounds/2), fmt.Sprintf("%d", updateBack))
 		c.Require("re-add rounds", reAdd >= 1, fmt.Sprintf("%d", reAdd))
 	}
+}
+
+
+// c04Churn: a writer keeps replacing the routes of virtual host vi (RemoveAllRoutes, then AddRoute one by one) alternating between
+// two lists that match the same requests but name different clusters, both bracketed by catch-all routes; 48 readers look the probes up
+// meanwhile. Every answer must be the answer of a fresh build holding some prefix of one of the two lists.
+func c04Churn(c *lab.Ctx, round int, name, dom string, cfgA *c04Config, vi int, probes []*c04Req, rw types.RouterWrapper, mgr types.RouterManager, seeds []uint64) int64 {
+	orig := cfgA.VHosts[vi].Routes
+	mk := func(tag string) []c04Route {
+		l := []c04Route{{Kind: "prefix", Pattern: "/", Cluster: "churn-first" + tag}}
+		for _, r := range orig {
+			r.Cluster += tag
+			l = append(l, r)
+		}
+		return append(l, c04Route{Kind: "prefix", Pattern: "/", Cluster: "churn-last" + tag})
+	}
+	lists := [][]c04Route{mk("~x"), mk("~y")}
+	// allowed answers per probe
+	allowed := make([][]c04Ans, len(probes))
+	add := func(routes []c04Route) bool {
+		cfg := *cfgA
+		cfg.VHosts = append([]c04VHost{}, cfgA.VHosts...)
+		cfg.VHosts[vi].Routes = routes
+		fresh, err := router.NewRouters(cfg.toV2())
+		if err != nil {
+			return false
+		}
+		for i, q := range probes {
+			allowed[i] = append(allowed[i], c04Lookup(fresh, q))
+		}
+		return true
+	}
+	ok := add(orig) && add(nil)
+	for _, l := range lists {
+		for k := 1; k <= len(l) && ok; k++ {
+			ok = add(l[:k])
+		}
+	}
+	if !ok {
+		c.Count("churn-skipped", 1)
+		return 0
+	}
+	var stop int32
+	var wg sync.WaitGroup
+	var lookups, bad int64
+	var firstBad atomic.Value
+	for g := 0; g < 48; g++ {
+		wg.Add(1)
+		go func(g int) {
+			defer wg.Done()
+			rr := lab.NewRand(seeds[g%len(seeds)] ^ 0x5EED ^ uint64(g))
+			for atomic.LoadInt32(&stop) == 0 {
+				for _, i := range rr.Perm(len(probes)) {
+					got := c04Lookup(rw.GetRouters(), probes[i])
+					atomic.AddInt64(&lookups, 1)
+					// MatchRoute and MatchAllRoutes are two calls (two instants): each is judged on its own
+					foundF, foundA := false, false
+					for _, a := range allowed[i] {
+						if got.First == a.First {
+							foundF = true
+						}
+						if (c04Ans{First: a.First, All: got.All}).Equal(a) {
+							foundA = true
+						}
+					}
+					if !(foundF && foundA) && atomic.AddInt64(&bad, 1) == 1 {
+						firstBad.Store(fmt.Sprintf("probe %d %s answered %s: no prefix of either route list gives that answer (old and new routes mixed)", i, probes[i].JSON(), got))
+					}
+				}
+			}
+		}(g)
+	}
+	// through the manager (slow: it also rewrites the stored configuration), then directly on the Routers object (fast, so that
+	// the writer overtakes readers that are in the middle of a list; 48 readers on 16 threads are also preempted there)
+	for k := 0; k < c.Pick(20, 60); k++ {
+		_ = mgr.RemoveAllRoutes(name, dom)
+		for _, r := range lists[k%2] {
+			v := r.toV2()
+			_ = mgr.AddRoute(name, dom, &v)
+		}
+	}
+	rts := rw.GetRouters()
+	v2lists := make([][]v2.Router, 2)
+	for li, l := range lists {
+		for _, r := range l {
+			v2lists[li] = append(v2lists[li], r.toV2())
+		}
+	}
+	for k := 0; k < c.Pick(200, 800); k++ {
+		rts.RemoveAllRoutes(dom)
+		for i := range v2lists[k%2] {
+			rts.AddRoute(dom, &v2lists[k%2][i])
+		}
+	}
+	atomic.StoreInt32(&stop, 1)
+	wg.Wait()
+	// restore configuration A
+	_ = mgr.RemoveAllRoutes(name, dom)
+	for ri := range orig {
+		v := orig[ri].toV2()
+		_ = mgr.AddRoute(name, dom, &v)
+	}
+	c.Eval(int(lookups))
+	c.Distinct(fmt.Sprintf("%d|churn|%d", round, bad))
+	if bad > 0 {
+		c.Violation("pure-function", "C04/determinism/lookup-saw-mixed-route-list",
+			fmt.Sprintf("round %d, virtual host %s: %d of %d lookups concurrent with RemoveAllRoutes/AddRoute on that virtual host got an answer no installed route list gives; first: %v", round, dom, bad, lookups, firstBad.Load()),
+			map[string]interface{}{"case": round, "config": cfgA, "domain": dom, "first": firstBad.Load()})
+	}
+	return lookups
 }
